@@ -338,6 +338,10 @@ func (w *world) view(ctx sdk.Context, contract common.Address, method string, ar
 	cctx, _ := ctx.CacheContext()
 	var out string
 	hlib.Catch(func() {
+		if ep := w.app.EvmKeeper.GetParams(cctx); !ep.EnableCall { // observation must not depend on the gate under test
+			ep.EnableCall = true
+			w.app.EvmKeeper.SetParams(cctx, ep)
+		}
 		res, err := w.app.AggregateKeeper.CallEVM(cctx, erc20ABI, moduleAddr, contract, method, args...)
 		if err != nil {
 			return
@@ -485,6 +489,8 @@ func symAmount(s string, bal *big.Int) string {
 		return new(big.Int).Sub(bal, big.NewInt(1)).String()
 	case "half":
 		return new(big.Int).Div(bal, big.NewInt(2)).String()
+	case "third":
+		return new(big.Int).Div(bal, big.NewInt(3)).String()
 	}
 	return s
 }
@@ -561,6 +567,26 @@ func (w *world) serverCall(msg sdk.Msg) (int, string) {
 		_, err := h(ctx, msg)
 		return err
 	})
+}
+
+// rich: "@rich" -> the user holding most of the asset (coin denomination, or token when t != nil)
+func (w *world) rich(ref string, t *token, denom string) string {
+	if !strings.HasPrefix(ref, "@rich") {
+		return ref
+	}
+	best, bestBal := 0, big.NewInt(-1)
+	for i, u := range w.users {
+		var b *big.Int
+		if t != nil {
+			b = w.tokBal(t, u.addr)
+		} else {
+			b = w.coinBal(u.addr, denom)
+		}
+		if b != nil && b.Cmp(bestBal) > 0 {
+			best, bestBal = i, b
+		}
+	}
+	return fmt.Sprintf("@u%d", best) + strings.TrimPrefix(ref, "@rich")
 }
 
 func (w *world) userByAddr(a common.Address) *user {
@@ -767,9 +793,9 @@ func (w *world) run(st Step) StepRes {
 			return nil
 		})
 	case "bank_send": // environment: a user sends coins (bank keeper SendCoins, as MsgSend does after its gates)
-		from, _ := w.resolveAddr(st.From)
-		to, _ := w.resolveAddr(st.To)
 		denom := w.denomString(st.Denom)
+		from, _ := w.resolveAddr(w.rich(st.From, nil, denom))
+		to, _ := w.resolveAddr(st.To)
 		amt := symAmount(st.Amount, w.coinBal(from, denom))
 		r.FromHex, r.ToHex, r.Denom, r.Amount = hex40(from), hex40(to), denom, amt
 		r.Class, r.Err = w.apply(func(ctx sdk.Context) error {
@@ -780,9 +806,12 @@ func (w *world) run(st Step) StepRes {
 		})
 	case "tok_transfer", "tok_burn": // environment: a user calls transfer / burn on a token contract
 		t := w.tok(st.Tok)
-		from, _ := w.resolveAddr(st.From)
+		from, _ := w.resolveAddr(w.rich(st.From, t, ""))
 		to, _ := w.resolveAddr(st.To)
 		amt := symAmount(st.Amount, w.tokBal(t, from))
+		if strings.HasPrefix(amt, "-") {
+			amt = "0"
+		}
 		r.FromHex, r.ToHex, r.Amount = hex40(from), hex40(to), amt
 		r.Class, r.Err = w.apply(func(ctx sdk.Context) error {
 			if t == nil {
@@ -801,9 +830,10 @@ func (w *world) run(st Step) StepRes {
 			return w.evmCall(ctx, from, &t.addr, data)
 		})
 	case "convert_coin":
-		senderStr := w.bech32String(st.Sender)
-		receiverStr := w.hexString(st.Receiver)
 		denom := w.denomString(st.Denom)
+		sref := w.rich(st.Sender, nil, denom)
+		senderStr := w.bech32String(sref)
+		receiverStr := w.hexString(w.rich(st.Receiver, nil, denom))
 		sa, err := sdk.AccAddressFromBech32(senderStr)
 		amt := symAmount(st.Amount, w.coinBal(common.BytesToAddress(sa), denom))
 		msg := &aggtypes.MsgConvertCoin{Coin: sdk.Coin{Denom: denom, Amount: amountOf(amt)}, Receiver: receiverStr, Sender: senderStr}
@@ -822,8 +852,9 @@ func (w *world) run(st Step) StepRes {
 			r.Class, r.Err = w.serverCall(msg)
 		}
 	case "convert_erc20":
-		senderStr := w.hexString(st.Sender)
-		receiverStr := w.bech32String(st.Receiver)
+		sref := w.rich(st.Sender, w.tok(st.Tok), "")
+		senderStr := w.hexString(sref)
+		receiverStr := w.bech32String(w.rich(st.Receiver, w.tok(st.Tok), ""))
 		contractStr := w.hexString(st.Contract)
 		denom := w.denomString(st.Denom)
 		amt := symAmount(st.Amount, w.tokBal(w.tok(st.Tok), common.HexToAddress(senderStr)))
